@@ -71,6 +71,7 @@ def scope_sizes(tier):
     N = ("struct", "N", (("a", 0, U(32), None, None),))
     E = ("enum", "E3", (("e0", 0), ("e5", 5)))
     leafs = [U(32), U(31), U(1), U(8), Arr(U(8), 4), Arr(U(8), 5), ("ref", "N"), ("ref", "E3"), F32, F64, Arr(("ref", "N"), 2), I(33)]
+    leafs.insert(7, Arr(U(8), 0))  # a layout with no pieces: 0 bits wide, so never "wider than 64 bits"
     cases = []
     for n in (1, 2, 3):
         for combo in itertools.product(leafs if n < 3 or tier != "quick" else leafs[:8], repeat=n):
@@ -92,6 +93,12 @@ def scope_devices(tier):
         ("device", "d", (("services", [("id", "T")]),)),
         ("device", "d", (("services", [("id", "S"), ("id", "T")]),)),
         ("device", "e", (("services", [("id", "T"), ("id", "S")]), ("k", 2))),
+        # one service written without the brackets: as a name, as a string, a name whose characters are
+        # all service names (ST is neither S nor T), and a number
+        ("device", "d", (("services", ("id", "S")),)),
+        ("device", "d", (("services", "T"),)),
+        ("device", "d", (("services", ("id", "ST")),)),
+        ("device", "d", (("services", 5),)),
     ]
     cases = []
     for svcs in ((), (svc("S"),), (svc("T"),), (svc("S"), svc("T"))):
